@@ -5,13 +5,16 @@
    [nonincreasing_boundary fl = false] is the behaviour before fix 05ee1f9 (reset only on a strictly smaller counter).
 
    Which optimiser behaviour the implicit reset covers.  Within one run of qiskit_algorithms' SPSA the evaluation
-   counter strictly increases from callback to callback (every iteration evaluates the objective at least twice), and
-   every run of one optimiser configuration issues its first callback with the same counter.  Hence the first counter
-   of a new run never exceeds the last counter of the previous run, and "counter did not increase" recognises every
-   such run start (Spsa_proofs.v: spsa_segments_runs, spsa_first_count_constant).  NOT recognisable: a new run whose
-   first counter is larger than the last counter of the previous run that was not ended by the change criterion (for
-   example optimisers with different settings sharing one checker): it is indistinguishable from a continuation
-   (Spsa_proofs.v: spsa_unrecognisable_example); that case is outside the property and is not demanded by the checks. *)
+   counter strictly increases from callback to callback (every iteration evaluates the objective at least twice).
+   WITHOUT blocking every run of one optimiser configuration issues its first callback with the same counter; then the
+   first counter of a new run never exceeds the last counter of the previous run and "counter did not increase"
+   recognises every run start (Spsa_proofs.v: spsa_segments_runs, spsa_first_count_constant — conditional theorems).
+   With SPSA(blocking=True) this is FALSE: rejected iterations skip the checker call while the counter keeps growing,
+   so the first call of a run carries a varying counter.  NOT recognisable (KNOWN FINDING of C13, known_findings.txt key
+   answer-spsa-run-boundary-increasing-count; no repair without an explicit reset signal in the callback interface): a
+   new run whose first counter is larger than the last counter of the previous run that was not ended by the change
+   criterion, e.g. run 1 [(n=4, f=5.0)] then run 2 [(n=7, f=6.0), ...] — it is indistinguishable from a continuation and
+   the two runs are merged (Spsa_proofs.v: spsa_known_finding_increasing_count, spsa_unrecognisable_example). *)
 From QV Require Import Common.Base Crit.Criteria.
 From Coq Require Import QArith Qabs.
 Open Scope Q_scope.
